@@ -543,6 +543,36 @@ class Interp(object):
             yield (s, None)
           else:
             yield (s, sig)
+      elif policy == 'unroll':
+        # a loop over a constant string / tuple is executed element by element
+        if not isinstance(node, ast.For):
+          raise AnalysisError('cannot unroll a while loop')
+        seq = self.value(node.iter, st)
+        if isinstance(seq, Const) and isinstance(seq.v, (str, tuple, list)):
+          elems = [Const(x) for x in seq.v]
+        elif isinstance(seq, tuple):
+          elems = list(seq)
+        else:
+          raise AnalysisError('loop over a value that is not constant: %s' % norm(node.iter, 50))
+
+        def run(states, i):
+          if i == len(elems):
+            for s in states:
+              yield (s, None)
+            return
+          nxt = []
+          for s in states:
+            s1 = s.copy()
+            self.assign(node.target, elems[i], s1)
+            for s2, sig in self.block(node.body, s1):
+              if sig is None or sig[0] == 'continue':
+                nxt.append(s2)
+              elif sig[0] == 'break':
+                yield (s2, None)
+              else:
+                yield (s2, sig)
+          yield from run(nxt, i + 1)
+        yield from run([st.copy()], 0)
       elif policy == 'once':
         yield (st.copy(), None)
         s1 = st.copy()
